@@ -238,6 +238,33 @@ func checkC09(c *Ctx) {
 	r.Rule("C09.18", "a reload swaps in the parsed policy lists of the new configuration; it never re-parses into the live object", 2)
 	checkReloadTakeover(c, "C09.18")
 
+	// ---- C09.20 "nothing deadlocks": the statistics report calls the registered modules (interface calls that end in the
+	// registration manager, which takes the table lock) holding none of the Stats mutexes - the sweep takes the same two
+	// locks in the other order (table lock, then genMutex in ExpireReg)
+	r.Rule("C09.20", "the statistics report calls its modules with no Stats mutex held", 1)
+	if f := c.fn("C09.20", "pkg/station/lib", "Stats", "PrintStats"); f != nil {
+		lf := analyseLocks(f, lockSet{})
+		n, bad := 0, ""
+		var pos token.Pos = f.Pos()
+		eachInstr(f, func(in ssa.Instruction) {
+			call, ok := in.(*ssa.Call)
+			if !ok || !call.Call.IsInvoke() {
+				return
+			}
+			n++
+			for k := range realLocks(lf.May[in]) {
+				bad = k
+				pos = in.Pos()
+			}
+		})
+		if n == 0 {
+			r.Unk("C09.20", "PrintStats: calls of the stats modules", f.Pos(), fnName(f), "no interface call found")
+		} else {
+			r.Check(bad == "", "C09.20", "PrintStats: modules are called with no lock held", pos, fnName(f), fmt.Sprintf("%d interface call(s), empty may-held set", n),
+				"the report calls a stats module while holding "+bad+": the registration manager's module takes the table lock, and the expiry sweep takes the table lock and then "+bad+" (ExpireReg) - a lock-order inversion that freezes the table write lock, and with it ingest, lookups and shutdown")
+		}
+	}
+
 	// ---- C09.19 no update is lost to a table swap (shared with C08.11)
 	checkTablesNeverReplaced(c, "C09.19")
 
